@@ -89,8 +89,11 @@ InputsCtl(st) ==
             \cup {[k |-> "read", seq |-> NextReqSeq(st), hs |-> <<>>, rep |-> FALSE, bad |-> "badobj"],
                   [k |-> "read", seq |-> NextReqSeq(st), hs |-> <<H("c0")>>, rep |-> FALSE],
                   [k |-> "read", seq |-> NextReqSeq(st), hs |-> <<H("c1")>>, rep |-> FALSE]}
+            \cup {[k |-> "read", seq |-> NextReqSeq(st), hs |-> <<>>, rep |-> FALSE, bad |-> "badobj", dst |-> "BC_OPT"]}
             \cup RepeatLast(st)
-            \cup {[k |-> "conf", uns |-> u, seq |-> RightConfirmSeq(st, u)] : u \in BOOLEAN})
+            \cup {[k |-> "conf", uns |-> u, seq |-> RightConfirmSeq(st, u)] : u \in BOOLEAN}
+            \* the right confirm, but from another master
+            \cup {[k |-> "conf", uns |-> u, seq |-> RightConfirmSeq(st, u), src |-> "X"] : u \in BOOLEAN})
     \cup (LET d == NextTimer(st, st.now + 100000)
           IN IF d = NoTime THEN {} ELSE {[k |-> "adv", dt |-> (d - st.now) + 5]})
     \cup {[k |-> "adv", dt |-> SelectTO - 10], [k |-> "adv", dt |-> 20]}
